@@ -174,7 +174,7 @@ impl Check for C05Check {
         let mut or = rng.fork("ops");
         let mut knobs = Knobs::swarm(&mut kr);
         knobs.stmts = (4, 14);
-        let size = (pr.usize(1, 3), pr.usize(1, 2), pr.usize(2, 3));
+        let size = (pr.usize(1, 3), pr.usize(1, 2), pr.usize(2, 5));
         let mut project = proggen::gen_project(&mut pr, knobs, size);
         let n_bulk = match tier {
             Tier::Quick => pr.usize(6, 20),
